@@ -136,8 +136,36 @@ def _body(tdef, case):
     psi = lambda y: y + 0.5 * y * y
     phi_np = lambda x: onp.real(onp.sum(g * psi(f_np(x))))
     phi_ag = lambda x: AG.real(AG.sum(g * psi(f_ag(x)))) if y0a.dtype.kind == "c" else AG.sum(g * psi(f_ag(x)))
-    return second_order_check(phi_ag, phi_np, inst.x_carried(), onp.asarray(inst.x), inst.vseed, inst.h0, sample,
-                              lambda kind: bucket_of(inst, "2nd", kind), key_of(inst, "2nd"))
+    out = second_order_check(phi_ag, phi_np, inst.x_carried(), onp.asarray(inst.x), inst.vseed, inst.h0, sample,
+                             lambda kind: bucket_of(inst, "2nd", kind), key_of(inst, "2nd"))
+    if out.status != "ok" or y0a.dtype.kind == "c":
+        return out
+    # the derivative of the VJP function with respect to its cotangent, linearised at a ZERO cotangent, is the JVP
+    # (make_jvp_reversemode); it must agree with forward mode / the numerical directional derivative
+    import autograd
+    from autograd import differential_operators as do
+
+    from .. import oracle as _o
+    from ..case import from_autograd
+
+    xa = onp.asarray(inst.x)
+    v = values.direction(inst.vseed, xa.shape, 54)
+    try:
+        num, err = _o.directional(f_np, xa, v, inst.h0)
+    except _o.Inconclusive:
+        return out
+    try:
+        t = onp.asarray(do.make_jvp_reversemode(f_ag)(inst.x_carried())(v))
+    except Exception as e:
+        if not from_autograd(e):
+            raise
+        return out  # raising is allowed
+    num = onp.asarray(num, dtype=float)
+    if t.shape != num.shape or not onp.all(onp.abs(t - num) <= 1e-7 * max(1.0, float(onp.max(onp.abs(num), initial=0.0))) + 100 * err):
+        case.features["subcheck"] = "jvp_reversemode"
+        return fail("wrong_value", f"make_jvp_reversemode (derivative of the VJP at a zero cotangent) gives {t.tolist()!r:.120} but J v = {num.tolist()!r:.120}",
+                    bucket_of(inst, "2nd", "jvp_reversemode"), sample=sample)
+    return out
 
 
 def _prog_body(case):
@@ -269,11 +297,52 @@ def high_order_body(order, c):
     return ok(nontrivial=len(got) >= 2 and abs(ref) > 1e-12, key=repr(e) + str(x0) + str(order), labels=[f"order={order}"], sample=sample)
 
 
+def mixed_body(c):
+    """Mixed partials of f(x, y) = a(x) + b(x) * c(y)^m, m in {0, 1, 2}: for m = 0 the inner function is constant in its own
+    variable but depends on the enclosing one, so the inner derivative must be an exact zero at every order."""
+    import autograd
+    import autograd.numpy as anp
+
+    m = c.int(0, 2)
+    fa, fb, fc = c.choice(["sin", "exp", "sq"]), c.choice(["sin", "exp", "sq"]), c.choice(["sin", "exp", "sq"])
+    modes = "".join(c.choice("rf") for _ in range(2))
+    x0, y0 = c.choice([0.4, 0.9, 1.3]), c.choice([0.5, 1.1])
+    F = {"sin": (anp.sin, math.sin, math.cos, lambda t: -math.sin(t)), "exp": (lambda t: anp.exp(0.5 * t), lambda t: math.exp(0.5 * t),
+         lambda t: 0.5 * math.exp(0.5 * t), lambda t: 0.25 * math.exp(0.5 * t)), "sq": (lambda t: t * t, lambda t: t * t, lambda t: 2 * t, lambda t: 2.0)}
+    sample = {"m": m, "a": fa, "b": fb, "c": fc, "modes": modes, "x": x0, "y": y0}
+
+    def f(x, y):
+        return F[fa][0](x) + F[fb][0](x) * (F[fc][0](y) ** m if m else 1.0)
+
+    def D(mode, fn):
+        return autograd.grad(fn) if mode == "r" else (lambda t: autograd.make_jvp(fn)(t)(1.0)[1])
+
+    # g(x) = x * d/dy f(x, y)|_{y0};   g'(x) = f_y + x f_xy
+    cy, dcy = F[fc][1](y0), F[fc][2](y0)
+    fy = F[fb][1](x0) * (m * cy ** (m - 1) * dcy if m else 0.0)
+    fxy = F[fb][2](x0) * (m * cy ** (m - 1) * dcy if m else 0.0)
+    want = fy + x0 * fxy
+    try:
+        with __import__("warnings").catch_warnings():
+            __import__("warnings").simplefilter("ignore")
+            got = float(D(modes[0], lambda x: x * D(modes[1], lambda y: f(x, y))(y0))(x0))
+    except Exception as e:
+        from ..case import describe_exc, from_autograd
+
+        if not from_autograd(e):
+            raise
+        return fail("unexpected_exception", describe_exc(e), "C07|mixed|exception", sample=sample)
+    if abs(got - want) > 1e-10 * max(1.0, abs(want)):
+        return fail("wrong_value", f"d/dx [x * df/dy] = {got!r}, expected {want!r} (modes {modes}, m={m})", "C07|mixed|wrong_value", sample=sample)
+    return ok(nontrivial=True, key=json.dumps(sample), labels=[f"m={m}", "modes=" + modes], sample=sample)
+
+
 def tests():
     out = []
     for name, t in sorted(TEMPLATES.items()):
         out.append(Test("hvp:" + name, partial(_body, t), quick=30 * t.weight, thorough=400 * t.weight, shard_size=100))
     out.append(Test("hvp:programs", _prog_body, quick=400, thorough=6000, shard_size=100))
+    out.append(Test("mixed_partials", mixed_body, quick=400, thorough=3000, shard_size=100))
     out.append(Test("order3", partial(high_order_body, 3), quick=300, thorough=5000, shard_size=100))
     out.append(Test("order4", partial(high_order_body, 4), quick=150, thorough=3000, shard_size=60))
     return out
